@@ -50,14 +50,15 @@ type kSvc struct {
 
 // kCluster builds the causal history.
 type kCluster struct {
-	tp     *engine.Tape
-	ns     string
-	pods   map[string]*kPod
-	svcs   map[string]*kSvc
-	slices map[string]*discoveryv1.EndpointSlice // by name, as last emitted
-	rule   map[string]int                        // address -> slice index (a/b), flips model rebalancing
-	q      map[string][]kEvent
-	ctime  metav1.Time
+	dupEmitted int // slice events that put one address into two slices of a service
+	tp         *engine.Tape
+	ns         string
+	pods       map[string]*kPod
+	svcs       map[string]*kSvc
+	slices     map[string]*discoveryv1.EndpointSlice // by name, as last emitted
+	rule       map[string]int                        // address -> slices holding it: 0 = slice a, 1 = slice b, 2 = both (transient duplicate while the EndpointSlice controller moves it)
+	q          map[string][]kEvent
+	ctime      metav1.Time
 }
 
 func (k *kCluster) emit(typ, verb string, obj runtime.Object, desc string) {
@@ -121,7 +122,7 @@ func (k *kCluster) syncSlices() {
 			}
 			for _, pname := range sortedKeys(k.pods) {
 				p := k.pods[pname]
-				if p.app != s.name || !p.running || k.rule[p.ip]%2 != idx {
+				if p.app != s.name || !p.running || (k.rule[p.ip] != 2 && k.rule[p.ip] != idx) {
 					continue
 				}
 				ready, term := p.ready && !p.terminating, p.terminating
@@ -151,6 +152,15 @@ func (k *kCluster) syncSlices() {
 			k.emit("slice", "create", d, fmt.Sprintf("create slice %s %s", name, sliceAddrs(d)))
 		} else if sliceAddrs(old) != sliceAddrs(d) || len(old.Ports) != len(d.Ports) {
 			k.emit("slice", "update", d, fmt.Sprintf("update slice %s %s", name, sliceAddrs(d)))
+			for _, other := range sortedKeys(desired) {
+				if other != name && desired[other].Labels[discoveryv1.LabelServiceName] == d.Labels[discoveryv1.LabelServiceName] {
+					for _, e := range d.Endpoints {
+						if strings.Contains(sliceAddrs(desired[other]), e.Addresses[0]+"/") {
+							k.dupEmitted++
+						}
+					}
+				}
+			}
 		} else {
 			continue
 		}
@@ -191,7 +201,7 @@ func (k *kCluster) step() {
 		}
 		return ""
 	}
-	switch op := tp.Choose(12, "kop"); {
+	switch op := tp.Choose(14, "kop"); {
 	case op < 2: // service create / delete / update
 		name := []string{"svc1", "svc2"}[tp.Choose(2, "svc")]
 		s := k.svcs[name]
@@ -256,8 +266,14 @@ func (k *kCluster) step() {
 			delete(k.pods, p.name)
 		}
 	default: // the EndpointSlice controller rebalances: an address moves to the other slice of its service
+		// a move is two steps: the address first appears in the other slice too (transient duplicate), then it
+		// is dropped from one of them - the old one (move completed) or the new one (moved back)
 		ip := ips[tp.Choose(len(ips), "moveip")]
-		k.rule[ip]++
+		if k.rule[ip] == 2 {
+			k.rule[ip] = tp.Choose(2, "keepWhich")
+		} else {
+			k.rule[ip] = 2
+		}
 	}
 	k.syncSlices()
 }
@@ -381,6 +397,11 @@ func runC15(t *testing.T, r *engine.Run) {
 		total += len(q)
 	}
 	r.Logf("history: %d events (svc=%d pod=%d slice=%d)", total, len(k.q["svc"]), len(k.q["pod"]), len(k.q["slice"]))
+	if k.dupEmitted > 0 {
+		r.Probe("address_in_two_slices")
+	}
+	// swarm: some runs let one stream run far ahead of the others
+	ahead := []string{"", "", "slice", "pod", "svc"}[tp.Choose(5, "streamAhead")]
 	burst := 0
 	for applied := 0; applied < total && !r.Failed(); applied++ {
 		var avail []string
@@ -388,6 +409,9 @@ func runC15(t *testing.T, r *engine.Run) {
 			if len(k.q[ty]) > 0 {
 				avail = append(avail, ty)
 			}
+		}
+		if ahead != "" && len(k.q[ahead]) > 0 {
+			avail = append(avail, ahead, ahead, ahead, ahead)
 		}
 		ty := avail[tp.Choose(len(avail), "stream")]
 		ev := k.q[ty][0]
